@@ -78,6 +78,7 @@ fn main() {
         let case = if v.get("case").is_some() { v["case"].clone() } else { v };
         let r = match id.as_str() {
             "C01" => checks::c01::replay(&case),
+            "C05" => checks::c05::replay(&case),
             "C07" => checks::c07::replay(&case),
             "C08" => checks::c08::replay(&case),
             "C10" => checks::c10::replay(&case),
@@ -107,6 +108,7 @@ fn main() {
     let mut ctx = Ctx::new(&id, tier);
     match id.as_str() {
         "C01" => checks::c01::run(&mut ctx),
+        "C05" => checks::c05::run(&mut ctx),
         "C07" => checks::c07::run(&mut ctx),
         "C08" => checks::c08::run(&mut ctx),
         "C10" => checks::c10::run(&mut ctx),
